@@ -34,7 +34,7 @@ def jobs_for(tier):
     if tier == 'quick':
         tpls = tpls + corpus.generated(quick=True, exclude={'real'})
     for t in tpls:
-        jobs.append(dict(id='%s/der' % t['id'], template=t['id'], codec='der', tier=tier, numeric_enums=False))
+        jobs.append(dict(id='%s/der' % t['id'], template=t['id'], codec='der', tier=corpus.job_tier(t, tier), numeric_enums=False))
         if 'enum' in t['feats'] and tier == 'thorough':
             jobs.append(dict(id='%s/der/numeric' % t['id'], template=t['id'], codec='der', tier=tier,
                              numeric_enums=True))
